@@ -364,18 +364,19 @@ Lemma is_skip_np x : is_skip x = true -> np_toks x = [].
 Proof. intros H. apply is_skip_cases in H as [H|H]; [apply np_toks_blank|apply np_toks_comment]; exact H. Qed.
 
 (* one step of the loop; reaching the last line of the section and running off its end
-   give the same result *)
+   give the same result.  The window is bounded by the number of COUNTED lines. *)
 Lemma inspect_loop_step d raw rest i subs hyph counts :
   inspect_loop d (raw :: rest) i subs hyph counts =
   if is_skip raw then inspect_loop d rest (S i) subs hyph counts
   else
     let hyph' := if dhyph raw then S hyph else hyph in
     let counts' := dcount d subs raw :: counts in
-    if Nat.leb 20 i then (hyph', rev counts') else inspect_loop d rest (S i) subs hyph' counts'.
+    if Nat.ltb 20 (List.length counts') then (hyph', rev counts')
+    else inspect_loop d rest (S i) subs hyph' counts'.
 Proof.
   cbn [inspect_loop]. unfold is_skip, dhyph, dcount. destruct (strip raw) as [|ch r]; [reflexivity|].
   destruct (startswith [ch_hash] (ch :: r)); [reflexivity|]. cbv zeta.
-  destruct rest as [|raw2 rest]; [|reflexivity]. destruct (Nat.leb 20 i); reflexivity.
+  destruct rest as [|raw2 rest]; [|reflexivity]. destruct (Nat.ltb 20 _); reflexivity.
 Qed.
 
 Theorem inspect_loop_streq d subs : forall body body', Forall2 streq body body' ->
@@ -383,7 +384,7 @@ Theorem inspect_loop_streq d subs : forall body body', Forall2 streq body body' 
 Proof.
   induction 1 as [|x y l l' Hxy H IH]; intros i hyph counts; [reflexivity|].
   rewrite !inspect_loop_step, (is_skip_streq x y Hxy). unfold dhyph, dcount. unfold streq in Hxy. rewrite Hxy.
-  destruct (is_skip y); [apply IH|]. cbv zeta. destruct (Nat.leb 20 i); [reflexivity|apply IH].
+  destruct (is_skip y); [apply IH|]. cbv zeta. destruct (Nat.ltb 20 _); [reflexivity|apply IH].
 Qed.
 
 Theorem inspect_streq d subs body body' : Forall2 streq body body' -> inspect d body subs = inspect d body' subs.
@@ -396,7 +397,37 @@ Proof.
   destruct (inspect d body' subs) as [n rec]. rewrite (inspect_streq d rec body body' H). reflexivity.
 Qed.
 
-(* a body whose counted lines all have c tokens and the same hyphen flag h *)
+(* blank and comment lines are invisible to the sniffer: inserting any number of them at any
+   sites (also inside the sampled window, also as the last line) changes nothing, and the
+   physical line index is irrelevant *)
+Theorem inspect_loop_ins_skipped d subs body body' :
+  ins_lines (fun x => is_skip x = true) body body' ->
+  forall i j hyph counts, inspect_loop d body' i subs hyph counts = inspect_loop d body j subs hyph counts.
+Proof.
+  induction 1 as [|x l l' Hx H IH|x l l' H IH]; intros i j hyph counts.
+  - reflexivity.
+  - rewrite inspect_loop_step, Hx. apply IH.
+  - rewrite !inspect_loop_step. destruct (is_skip x); [apply IH|]. cbv zeta.
+    destruct (Nat.ltb 20 _); [reflexivity|apply IH].
+Qed.
+
+Theorem inspect_ins_skipped d subs body body' :
+  ins_lines (fun x => is_skip x = true) body body' -> inspect d body' subs = inspect d body subs.
+Proof. intros J. unfold inspect. rewrite (inspect_loop_ins_skipped d subs body body' J 0%nat 0%nat). reflexivity. Qed.
+
+Theorem inspect_twice_ins_skipped d subs body body' :
+  ins_lines (fun x => is_skip x = true) body body' -> inspect_twice d body' subs = inspect_twice d body subs.
+Proof.
+  intros J. unfold inspect_twice. rewrite (inspect_ins_skipped d subs body body' J).
+  destruct (inspect d body subs) as [n rec]. rewrite (inspect_ins_skipped d rec body body' J). reflexivity.
+Qed.
+
+Corollary sniff_skip_anywhere d subs a x b : is_skip x = true ->
+  inspect_twice d (a ++ x :: b) subs = inspect_twice d (a ++ b) subs.
+Proof. intros H. apply inspect_twice_ins_skipped. apply (ins_lines_one (fun x => is_skip x = true)). exact H. Qed.
+
+(* a body whose counted lines all have c tokens and the same hyphen flag h: the answer is
+   determined *)
 Definition uniform (d : dlm) (subs : list rsub) (c : nat) (h : bool) (body : list (list N)) : Prop :=
   Forall (fun raw => is_skip raw = true \/ (dcount d subs raw = c /\ dhyph raw = h)) body.
 Definition has_data (body : list (list N)) : bool := existsb (fun raw => negb (is_skip raw)) body.
@@ -413,7 +444,7 @@ Proof.
     destruct (is_skip raw) eqn:Es.
     + destruct (IH (S i) hyph counts Hrest) as (k & E & Hk). exists k. split; [exact E|]. exact Hk.
     + destruct Hraw as [F|(Hc & Hh)]; [discriminate|]. cbv zeta. rewrite Hc, Hh.
-      destruct (Nat.leb 20 i).
+      destruct (Nat.ltb 20 _).
       * exists 1%nat. cbn [rev repeat]. split; [|lia]. destruct h; f_equal; lia.
       * destruct (IH (S i) (if h then S hyph else hyph) (c :: counts) Hrest) as (k & E & _).
         exists (S k). rewrite E. cbn [rev repeat]. rewrite <- app_assoc. cbn [app]. split; [|lia].
@@ -428,7 +459,6 @@ Proof.
   rewrite H. reflexivity.
 Qed.
 
-(* on such a body the sniffer's answer is determined, wherever its window ends *)
 Theorem inspect_uniform d subs c h body : uniform d subs c h body -> has_data body = true ->
   inspect d body subs = (Some c, if h then drop_hyphen_subs subs else subs).
 Proof.
@@ -437,44 +467,4 @@ Proof.
   destruct h; cbn [Nat.add].
   - rewrite Nat.eqb_refl. reflexivity.
   - destruct k; [lia|]. reflexivity.
-Qed.
-
-Lemma uniform_ins d subs c h body body' : ins_lines (fun x => is_skip x = true) body body' ->
-  uniform d subs c h body -> uniform d subs c h body'.
-Proof.
-  unfold uniform. induction 1 as [|j l l' Hj H IH|x l l' H IH]; intros U.
-  - constructor.
-  - constructor; [left; exact Hj|apply IH; exact U].
-  - inversion U; subst. constructor; [assumption|apply IH; assumption].
-Qed.
-
-Lemma has_data_ins body body' : ins_lines (fun x => is_skip x = true) body body' ->
-  has_data body' = has_data body.
-Proof.
-  unfold has_data. induction 1 as [|j l l' Hj H IH|x l l' H IH]; cbn [existsb]; [reflexivity| |].
-  - rewrite Hj. exact IH.
-  - rewrite IH. reflexivity.
-Qed.
-
-Theorem inspect_ins_skipped d subs c h body body' :
-  uniform d subs c h body -> has_data body = true ->
-  ins_lines (fun x => is_skip x = true) body body' ->
-  inspect d body' subs = inspect d body subs.
-Proof.
-  intros U D J. rewrite (inspect_uniform d subs c h body U D).
-  apply inspect_uniform; [apply (uniform_ins d subs c h body body' J U)|].
-  rewrite (has_data_ins body body' J). exact D.
-Qed.
-
-(* the double inspection of las.py: uniform under the initial and under the recommended subs *)
-Theorem inspect_twice_ins_skipped d subs c h c2 h2 body body' :
-  uniform d subs c h body -> uniform d (drop_hyphen_subs subs) c2 h2 body -> has_data body = true ->
-  ins_lines (fun x => is_skip x = true) body body' ->
-  inspect_twice d body' subs = inspect_twice d body subs.
-Proof.
-  intros U U2 D J. unfold inspect_twice.
-  rewrite (inspect_ins_skipped d subs c h body body' U D J), (inspect_uniform d subs c h body U D).
-  destruct h.
-  - rewrite (inspect_ins_skipped d _ c2 h2 body body' U2 D J). reflexivity.
-  - rewrite (inspect_ins_skipped d subs c false body body' U D J). reflexivity.
 Qed.
